@@ -49,8 +49,8 @@ type c05case struct {
 	Rbuf    uint32      `json:"rbuf"`      // configured ReceiveBufSize of the receiving side
 	PeerSnd uint32      `json:"peer_send"` // send buffer size the peer announces in its HEL / ACK (listener, dialer)
 	RbufEff uint32      `json:"rbuf_conn"` // Conn.ReceiveBufSize() after the handshake (observed)
-	Stream  string      `json:"stream"` // hex
-	Segs    []int       `json:"segs"`   // write sizes (sum = len(stream))
+	Stream  string      `json:"stream"`    // hex
+	Segs    []int       `json:"segs"`      // write sizes (sum = len(stream))
 	SegKind string      `json:"segkind"`
 	PauseUS int         `json:"pause_us"`
 	Calls   int         `json:"calls"`  // max number of Receive calls
